@@ -16,8 +16,13 @@
 (***************************************************************************)
 EXTENDS KFoldPreds
 
-InitState(kind, n, k, shuffle) ==
-    [kind |-> kind, n |-> n, k |-> k, shuffle |-> shuffle,
+(* custom = TRUE: the run uses a user-supplied splitter (any BaseKFold), whose (train, test)
+   pairs are declared in the Start event (decl); the guards then demand that fold j is fitted
+   on exactly decl[j].train and scored / predicted on exactly decl[j].test.  custom = FALSE:
+   the built-in KFold, whose splits are not observed directly (see G_Fit). *)
+InitState(kind, n, k, shuffle, custom, decl) ==
+    [kind |-> kind, n |-> n, k |-> k, shuffle |-> shuffle, custom |-> custom, decl |-> decl,
+     curTest |-> {},          \* held-out rows of the current fold
      phase |-> "idle",        \* idle | fitted | predicted (awaiting Score)
      folds |-> 0,             \* Fit events so far
      used |-> {},             \* ids already held out
@@ -35,7 +40,16 @@ FoldComplete(st) ==
        /\ st.didTest
        /\ (st.kind = "validate" => st.didTrain)
 
-G_Fit(st, e) ==
+G_FitCustom(st, e) ==
+    /\ FoldComplete(st)
+    /\ st.folds < Len(st.decl)
+    /\ e.f = st.folds + 1
+    /\ NoDup(e.rows)
+    /\ Range(e.rows) = Range(st.decl[st.folds + 1].train)
+    /\ Len(e.ys) = Len(e.rows)
+    /\ \A i \in 1..Len(e.rows) : e.ys[i] = 500 + e.rows[i]
+
+G_FitKFold(st, e) ==
     LET R == Range(e.rows)
         T == Ids(st.n) \ R
         q == st.n \div st.k
@@ -51,9 +65,14 @@ G_Fit(st, e) ==
         /\ Len(e.ys) = Len(e.rows)
         /\ \A i \in 1..Len(e.rows) : e.ys[i] = 500 + e.rows[i]
 
+G_Fit(st, e) == IF st.custom THEN G_FitCustom(st, e) ELSE G_FitKFold(st, e)
+
+HeldOut(st, e) == IF st.custom THEN Range(st.decl[st.folds + 1].test) ELSE Ids(st.n) \ Range(e.rows)
+
 E_Fit(st, e) ==
     [st EXCEPT !.phase = "fitted", !.folds = st.folds + 1,
-               !.used = st.used \cup (Ids(st.n) \ Range(e.rows)),
+               !.used = st.used \cup HeldOut(st, e),
+               !.curTest = HeldOut(st, e),
                !.fitRows = Range(e.rows),
                !.didTrain = FALSE, !.didTest = FALSE,
                !.seenBy = [x \in DOMAIN st.seenBy \cup {e.f} |->
@@ -61,7 +80,7 @@ E_Fit(st, e) ==
 
 PredKind(st, e) ==
     IF Range(e.rows) = st.fitRows THEN "train"
-    ELSE IF Range(e.rows) = Ids(st.n) \ st.fitRows THEN "test" ELSE "neither"
+    ELSE IF Range(e.rows) = st.curTest THEN "test" ELSE "neither"
 
 G_Predict(st, e) ==
     /\ st.phase = "fitted"
@@ -102,13 +121,12 @@ G_Done(st, e) ==
     /\ e.kind = st.kind
     /\ e.status = "ok"
     /\ FoldComplete(st)
-    /\ st.folds = st.k
-    /\ st.used = Ids(st.n)
+    /\ (IF st.custom THEN st.folds = Len(st.decl) ELSE st.folds = st.k /\ st.used = Ids(st.n))
     /\ IF st.kind = "validate"
        THEN /\ e.out.trainScore = st.trS
             /\ e.out.testScore = st.teS
        ELSE /\ Len(e.out.yhat) = st.n
-            /\ \A i \in Ids(st.n) : e.out.yhat[i + 1] = st.exp[i]
+            /\ \A i \in st.used : e.out.yhat[i + 1] = st.exp[i]
 
 (* What the property promises about a completed run, stated on the state   *)
 (* alone (checked by CrossValMC on every behaviour the guards admit).      *)
